@@ -92,6 +92,10 @@ impl Sink {
         if self.samples.len() < 3 && ev["ev"] != json!("reset") {
             self.samples.push(ev.clone());
         }
+        // how many events are non-trivial (accepted values, found types, equal pairs, ...)
+        let kind = ev["ev"].as_str().unwrap_or("").to_owned();
+        let flag = if ev["out"]["ok"] == json!(true) || ev["res"]["some"] == json!(true) || ev["eq"] == json!(true) || ev["res"]["ok"] == json!(true) { "pos" } else { "neg" };
+        self.ctx.count(&format!("{}_{}", kind, flag));
         writeln!(self.out, "{}", ev).expect("write event");
         self.n += 1;
         crate::PROGRESS.store(self.n, Ordering::Relaxed);
@@ -116,6 +120,27 @@ fn parse_all(sink: &mut Sink, s: &str) {
     parse_event::<String>(sink, "generic", "String", s);
     #[cfg(feature = "pt")]
     parse_event::<purl::PackageType>(sink, "typed", "Purl", s);
+    // C13: the small-string type parameter parses exactly like the owned string
+    #[cfg(feature = "ss")]
+    {
+        let (a, _) = replay::parse_outcome::<String>(s);
+        let (b, _) = replay::parse_outcome::<purl::SmallString>(s);
+        sink.ctx.case = json!({"s": cps(s)});
+        sink.ctx.check_eq("C13", "String and SmallString parse alike", "SmallString", &a, &b);
+    }
+    // C16: deserialising the string value behaves exactly like parsing it
+    #[cfg(feature = "sd")]
+    {
+        sink.ctx.serde = true;
+        let (a, _) = replay::parse_outcome::<String>(s);
+        sink.ctx.case = json!({"s": cps(s)});
+        replay::serde_checks::<String>(&mut sink.ctx, "String", s, &a);
+        #[cfg(feature = "pt")]
+        {
+            let (t, _) = replay::parse_outcome::<purl::PackageType>(s);
+            replay::serde_checks::<purl::PackageType>(&mut sink.ctx, "Purl", s, &t);
+        }
+    }
 }
 
 // --------------------------------------------------------------------------- string generators
@@ -509,6 +534,15 @@ fn drive_builder_ops(sink: &mut Sink, rng: &mut Rng, n: usize) {
         } else {
             let (o, c) = bseq_run::<String>(&ops);
             let back = c.as_ref().map(|c| replay::parse_outcome::<String>(c).0);
+            // C13: the same calls with the other built-in type parameters
+            sink.ctx.case = json!({"ops": ops});
+            let (o2, _) = bseq_run::<std::borrow::Cow<'static, str>>(&ops);
+            sink.ctx.check_eq("C13", "String and Cow build alike", "CowOwned", &o, &o2);
+            #[cfg(feature = "ss")]
+            {
+                let (o3, _) = bseq_run::<purl::SmallString>(&ops);
+                sink.ctx.check_eq("C13", "String and SmallString build alike", "SmallString", &o, &o3);
+            }
             (o, c, back)
         };
         let _ = canon;
@@ -585,6 +619,139 @@ fn drive_big(sink: &mut Sink, rng: &mut Rng, _n: usize) {
     }
 }
 
+const TYPE_NAMES: &[&str] = &["cargo", "gem", "golang", "maven", "npm", "nuget", "pypi"];
+const TYPE_NOISE: &[&str] = &["", " ", "\u{0}", "s", "x", "-", "\u{17F}", "\u{212A}", "\u{131}", "\u{130}", "\u{FF41}", "\u{FF4D}", "\u{430}", "\u{3BF}", "\u{301}", "e", "n", "go", "rpm", "deb"];
+
+#[cfg(feature = "pt")]
+fn drive_type_strings(sink: &mut Sink, rng: &mut Rng, n: usize) {
+    use purl::PackageType;
+    for _ in 0..n {
+        let base = ps(rng, TYPE_NAMES);
+        let mut chars: Vec<char> = base.chars().collect();
+        for c in chars.iter_mut() {
+            if rng.chance(1, 3) {
+                *c = c.to_ascii_uppercase();
+            }
+        }
+        let mut s: String = chars.into_iter().collect();
+        match rng.below(8) {
+            0 | 1 => {},
+            2 => s = mutate(rng, &s),
+            3 => {
+                let at = rng.below(s.chars().count() + 1);
+                let mut v: Vec<char> = s.chars().collect();
+                for (i, c) in ps(rng, TYPE_NOISE).chars().enumerate() {
+                    v.insert(at + i, c);
+                }
+                s = v.into_iter().collect();
+            },
+            4 => {
+                let mut v: Vec<char> = s.chars().collect();
+                if !v.is_empty() {
+                    let i = rng.below(v.len());
+                    let subs: Vec<char> = LOOKALIKES.iter().filter(|(a, _)| a.eq_ignore_ascii_case(&v[i])).map(|(_, b)| *b).collect();
+                    if !subs.is_empty() {
+                        v[i] = *rng.pick(&subs);
+                    }
+                }
+                s = v.into_iter().collect();
+            },
+            5 => s = format!("{}{}", s, ps(rng, TYPE_NAMES)),
+            6 => s = garbage(rng),
+            _ => {
+                let mut v: Vec<char> = s.chars().collect();
+                if !v.is_empty() {
+                    v.remove(rng.below(v.len()));
+                }
+                s = v.into_iter().collect();
+            },
+        }
+        let r = catch_unwind(AssertUnwindSafe(|| <PackageType as FromStr>::from_str(&s)));
+        let res = match r {
+            Err(_) => json!({"panic": true}),
+            Ok(Err(_)) => json!({"some": false}),
+            Ok(Ok(t)) => {
+                let views_agree = t.to_string() == t.name() && AsRef::<str>::as_ref(&t) == t.name() && <&'static str>::from(t) == t.name() && t.package_type() == t.name();
+                json!({"some": true, "v": cps(t.name()), "views_agree": views_agree})
+            },
+        };
+        sink.emit(json!({"ev": "tlookup", "s": cps(&s), "res": res}));
+    }
+}
+
+const COMB_PIECES: &[&str] = &["a", "b", "/", "/", ":", ":", "@", ".", "é", "%2F", " ", "", "x/y", "g:a"];
+
+#[cfg(feature = "pt")]
+fn drive_combined(sink: &mut Sink, rng: &mut Rng, n: usize) {
+    use purl::{PackageType, Purl};
+    for _ in 0..n {
+        let tn = ps(rng, TYPE_NAMES);
+        let t = <PackageType as FromStr>::from_str(tn).expect("known type");
+        let mut s = String::new();
+        for _ in 0..rng.below(7) {
+            s.push_str(ps(rng, COMB_PIECES));
+        }
+        let r = catch_unwind(AssertUnwindSafe(|| {
+            let b = Purl::builder_with_combined_name(t, &s);
+            let split = json!({"ns": cps(&b.parts.namespace), "name": cps(&b.parts.name)});
+            let built = b.build();
+            let (joined, inverse) = match &built {
+                Ok(p) => {
+                    let j = p.combined_name().into_owned();
+                    let b2 = Purl::builder_with_combined_name(t, &j);
+                    (json!({"some": true, "x": cps(&j)}), json!({"ns": cps(&b2.parts.namespace), "name": cps(&b2.parts.name)}))
+                },
+                Err(_) => (json!({"some": false}), json!({})),
+            };
+            (split, outcome::<PackageType, purl::PackageError>(Ok(built)), joined, inverse)
+        }));
+        match r {
+            Err(_) => sink.emit(json!({"ev": "comb", "t": cps(tn), "s": cps(&s), "panic": true})),
+            Ok((split, out, joined, inverse)) => sink.emit(json!({"ev": "comb", "t": cps(tn), "s": cps(&s), "split": split, "out": out,
+                                                                   "joined": joined, "inverse": inverse, "lc": lc_table(&[&s])})),
+        }
+    }
+}
+
+fn drive_pairs(sink: &mut Sink, rng: &mut Rng, n: usize, corpus: &[String]) {
+    use std::hash::{Hash, Hasher};
+    // a pool of values: corpus strings and near-collision mutations of them that parse
+    let mut pool: Vec<GenericPurl<String>> = Vec::new();
+    let mut tries = 0;
+    while pool.len() < 400 && tries < 20000 {
+        tries += 1;
+        let base = rng.pick(corpus).clone();
+        let s = if rng.chance(1, 3) { base } else { mutate(rng, &base) };
+        if let Ok(p) = GenericPurl::<String>::from_str(&s) {
+            pool.push(p);
+        }
+    }
+    let h = |p: &GenericPurl<String>| {
+        let mut st = std::collections::hash_map::DefaultHasher::new();
+        p.hash(&mut st);
+        st.finish()
+    };
+    for i in 0..n {
+        let a = rng.pick(&pool).clone();
+        // half of the pairs are near-collisions: the same value re-spelled, or one character away
+        let b = match i % 4 {
+            0 => GenericPurl::<String>::from_str(&a.to_string().replacen("pkg:", "pkg://", 1)).unwrap_or_else(|_| a.clone()),
+            1 => {
+                let m = mutate(rng, &a.to_string());
+                GenericPurl::<String>::from_str(&m).unwrap_or_else(|_| rng.pick(&pool).clone())
+            },
+            _ => rng.pick(&pool).clone(),
+        };
+        let ord = |o: std::cmp::Ordering| match o {
+            std::cmp::Ordering::Less => 2,
+            std::cmp::Ordering::Equal => 0,
+            std::cmp::Ordering::Greater => 1,
+        };
+        sink.emit(json!({"ev": "pair", "a": value_json(&a), "b": value_json(&b), "sa": cps(&a.to_string()), "sb": cps(&b.to_string()),
+                         "eq": a == b, "hash_eq": h(&a) == h(&b), "cmp_ab": ord(a.cmp(&b)), "cmp_ba": ord(b.cmp(&a))}));
+    }
+}
+
 pub fn main(args: &[String]) {
     let Some(driver) = args.first() else {
         eprintln!("drive: missing driver name");
@@ -613,6 +780,14 @@ pub fn main(args: &[String]) {
         "checksum-ops" => drive_checksum_ops(&mut sink, &mut rng, n),
         "builder-ops" => drive_builder_ops(&mut sink, &mut rng, n),
         "big" => drive_big(&mut sink, &mut rng, n),
+        #[cfg(feature = "pt")]
+        "type-strings" => drive_type_strings(&mut sink, &mut rng, n),
+        #[cfg(feature = "pt")]
+        "combined" => drive_combined(&mut sink, &mut rng, n),
+        "pairs" => {
+            let corpus = load_corpus(&arg_values(args, "--corpus"));
+            drive_pairs(&mut sink, &mut rng, n, &corpus)
+        },
         other => {
             eprintln!("unknown driver {other}");
             std::process::exit(2);
